@@ -160,7 +160,7 @@ class AuthorizationServer(_AuthorizationServer):
         if request is None:
             request = flask_req
         if request.method in ("POST", "PUT"):
-            body = request.form.to_dict(flat=True)
+            body = list(request.form.items(multi=True))
         else:
             body = None
         # ``request.url`` is an IRI (escaped non-ASCII characters are decoded),
